@@ -11,7 +11,10 @@ Record obs : Type := mkObs { o_delays : list (Z * Z); o_wsig : list (Z * Z); o_r
 
 Inductive C31_case : Type :=
 | CSim (interval_ns : Z) (ops : list (sop * obs))
-| CBlock (mbt : Z) (poisoned : bool) (rc : Z) (elapsed : Z) (delays : list (Z * Z)).
+| CBlock (mbt : Z) (poisoned : bool) (rc : Z) (elapsed : Z) (delays : list (Z * Z))
+(* a scenario outside the modelled family (several participants, discovery, lease expiry):
+   only the property oracle is applied to the observed delays *)
+| CFree (ops : list (sop * obs)).
 
 Definition pair_eqb (a b : Z * Z) : bool := (fst a =? fst b) && (snd a =? snd b).
 Fixpoint list_eqb {A B} (e : A -> B -> bool) (x : list A) (y : list B) : bool :=
@@ -59,6 +62,7 @@ Definition C31_model_ok (c : C31_case) : bool :=
   | CSim iv ops => fst (run_sim (init_state iv) ops)
   | CBlock mbt poisoned rc elapsed _ =>
       if poisoned then rc =? -1 else (rc =? 10) && (elapsed =? mbt)
+  | CFree _ => true
   end.
 
 (* the property on the implementation's observations:
@@ -86,6 +90,7 @@ Definition C31_oracle_ok (c : C31_case) : bool :=
   match c with
   | CSim iv ops => oracle_sim 1000000000 1000000000 ops
   | CBlock mbt _ rc elapsed ds => (rc =? 10) && (elapsed <=? mbt + POKE_NS) && delays_ok ds
+  | CFree ops => oracle_sim 1000000000 1000000000 ops
   end.
 
 (* class 1 (finding C31-negative-sleep): the scenario drives the model into a state where
@@ -101,4 +106,5 @@ Definition C31_known (c : C31_case) : N :=
   match c with
   | CSim iv ops => if sim_negative (init_state iv) ops then 1%N else 0%N
   | CBlock _ poisoned _ _ _ => if poisoned then 1%N else 0%N
+  | CFree _ => 0%N
   end.
